@@ -37,7 +37,8 @@ CONSTANTS Ops,          \* operation ids (integers)
           MaxNonces,    \* capacity of the pool (100 in the code)
           MaxReplies,   \* bound on the number of server replies (script length)
           NonceURLs,    \* subset of BOOLEAN: does the directory advertise newNonce
-          InitPools     \* subset of {0,1}: did Discover's response carry a nonce
+          InitPools,    \* subset of {0,1}: did Discover's response carry a nonce
+          StopVals      \* classes of the NON-POSITIVE value RetryBackoff returns when it ends the retries: "zero", "neg"
 
 NoOp == 0
 ASSUME NoOp \notin Ops
@@ -62,12 +63,12 @@ VARIABLES hasNonceURL,  \* configuration (chosen in Init)
           nrep,         \* server: number of replies given (serial of the last one)
           pool,         \* client: Client.nonces
           mu,           \* client: holder of noncesMu across a HEAD, or NoOp
-          pc, nonce, tries, phase, posts, budget, phases, lastR, res, cancelled,
+          pc, nonce, tries, phase, posts, budget, phases, stopv, lastR, res, cancelled,
           bad,          \* history: some POST carried a nonce that was not issued or was already used
           late,         \* history: some request was sent by an operation after its context was cancelled
           ev            \* last event (hidden by VIEW in model checking; history for generation)
 
-cvars == <<hasNonceURL, nextN, used, nrep, pool, mu, pc, nonce, tries, phase, posts, budget, phases, lastR, res, cancelled, bad, late>>
+cvars == <<hasNonceURL, nextN, used, nrep, pool, mu, pc, nonce, tries, phase, posts, budget, phases, stopv, lastR, res, cancelled, bad, late>>
 vars  == <<cvars, ev>>
 
 NoReply == [k |-> "none", s |-> 0, m |-> 0]
@@ -82,7 +83,7 @@ InitCfg(nurl, ip) ==
         /\ used = {} /\ nrep = 0 /\ mu = NoOp
         /\ pc = [o \in Ops |-> "idle"] /\ nonce = [o \in Ops |-> 0] /\ tries = [o \in Ops |-> 0]
         /\ phase = [o \in Ops |-> 1] /\ posts = [o \in Ops |-> 0]
-        /\ budget = [o \in Ops |-> 0] /\ phases = [o \in Ops |-> 1]
+        /\ budget = [o \in Ops |-> 0] /\ phases = [o \in Ops |-> 1] /\ stopv = [o \in Ops |-> "zero"]
         /\ lastR = [o \in Ops |-> NoReply] /\ res = [o \in Ops |-> NoRes]
         /\ cancelled = [o \in Ops |-> FALSE]
         /\ bad = FALSE /\ late = FALSE
@@ -90,11 +91,11 @@ InitCfg(nurl, ip) ==
 
 Init == \E nurl \in NonceURLs, ip \in InitPools : InitCfg(nurl, ip)
 
-Call(o, b, p) ==
+Call(o, b, p, sv) ==
   /\ pc[o] = "idle"
-  /\ budget' = [budget EXCEPT ![o] = b] /\ phases' = [phases EXCEPT ![o] = p]
+  /\ budget' = [budget EXCEPT ![o] = b] /\ phases' = [phases EXCEPT ![o] = p] /\ stopv' = [stopv EXCEPT ![o] = sv]
   /\ pc' = [pc EXCEPT ![o] = "need"]
-  /\ ev' = E("call", o, "", b, p)
+  /\ ev' = E("call", o, sv, b, p)
   /\ UNCHANGED <<hasNonceURL, nextN, used, nrep, pool, mu, nonce, tries, phase, posts, lastR, res, cancelled, bad, late>>
 
 PopPool(o) ==
@@ -103,7 +104,7 @@ PopPool(o) ==
                      /\ nonce' = [nonce EXCEPT ![o] = n]
                      /\ ev' = E("pop", o, "", n, 0)
   /\ pc' = [pc EXCEPT ![o] = "send"]
-  /\ UNCHANGED <<hasNonceURL, nextN, used, nrep, mu, tries, phase, posts, budget, phases, lastR, res, cancelled, bad, late>>
+  /\ UNCHANGED <<hasNonceURL, nextN, used, nrep, mu, tries, phase, posts, budget, phases, stopv, lastR, res, cancelled, bad, late>>
 
 HeadStart(o) ==
   /\ pc[o] = "need" /\ mu = NoOp /\ pool = {}
@@ -111,7 +112,7 @@ HeadStart(o) ==
   /\ pc' = [pc EXCEPT ![o] = "head1"]
   /\ late' = (late \/ cancelled[o])
   /\ ev' = E("head", o, "", 0, 0)
-  /\ UNCHANGED <<hasNonceURL, nextN, used, nrep, pool, nonce, tries, phase, posts, budget, phases, lastR, res, cancelled, bad>>
+  /\ UNCHANGED <<hasNonceURL, nextN, used, nrep, pool, nonce, tries, phase, posts, budget, phases, stopv, lastR, res, cancelled, bad>>
 
 \* the fallback HEAD (request URL) goes on the wire; noncesMu is still held
 HeadStart2(o) ==
@@ -119,7 +120,7 @@ HeadStart2(o) ==
   /\ pc' = [pc EXCEPT ![o] = "head2"]
   /\ late' = (late \/ cancelled[o])
   /\ ev' = E("head", o, "", 0, 0)
-  /\ UNCHANGED <<hasNonceURL, nextN, used, nrep, pool, mu, nonce, tries, phase, posts, budget, phases, lastR, res, cancelled, bad>>
+  /\ UNCHANGED <<hasNonceURL, nextN, used, nrep, pool, mu, nonce, tries, phase, posts, budget, phases, stopv, lastR, res, cancelled, bad>>
 
 \* result of an operation that ends with reply r
 Finish(o, r) == /\ pc' = [pc EXCEPT ![o] = "done"]
@@ -145,7 +146,7 @@ HeadReply(o, k) ==
                      /\ pc' = [pc EXCEPT ![o] = "fb"] /\ UNCHANGED <<mu, res>>
                 ELSE \* (after "cancel" the fallback HEAD is refused by the transport: ctx error)
                      /\ Finish(o, r) /\ mu' = NoOp
-  /\ UNCHANGED <<hasNonceURL, used, pool, tries, phase, posts, budget, phases, bad, late>>
+  /\ UNCHANGED <<hasNonceURL, used, pool, tries, phase, posts, budget, phases, stopv, bad, late>>
 
 Send(o) ==
   /\ pc[o] = "send"
@@ -155,7 +156,7 @@ Send(o) ==
   /\ used' = used \cup {nonce[o]}
   /\ pc' = [pc EXCEPT ![o] = "wait"]
   /\ ev' = E("post", o, "", nonce[o], phase[o])
-  /\ UNCHANGED <<hasNonceURL, nextN, nrep, pool, mu, nonce, tries, phase, budget, phases, lastR, res, cancelled>>
+  /\ UNCHANGED <<hasNonceURL, nextN, nrep, pool, mu, nonce, tries, phase, budget, phases, stopv, lastR, res, cancelled>>
 
 PostReply(o, k) ==
   /\ pc[o] = "wait" /\ nrep < MaxReplies
@@ -170,7 +171,7 @@ PostReply(o, k) ==
         THEN /\ Finish(o, r)
              /\ cancelled' = [cancelled EXCEPT ![o] = (k = "cancel")]
         ELSE /\ pc' = [pc EXCEPT ![o] = "add"] /\ UNCHANGED <<res, cancelled>>
-  /\ UNCHANGED <<hasNonceURL, used, pool, mu, tries, phase, posts, budget, phases, bad, late>>
+  /\ UNCHANGED <<hasNonceURL, used, pool, mu, tries, phase, posts, budget, phases, stopv, bad, late>>
 
 AddNonce(o) ==
   /\ pc[o] = "add"
@@ -189,7 +190,7 @@ AddNonce(o) ==
           [] r.k \in Retriable -> /\ pc' = [pc EXCEPT ![o] = "backoff"] /\ tries' = [tries EXCEPT ![o] = @ + 1]
                                   /\ UNCHANGED <<phase, posts, res>>
           [] OTHER -> Finish(o, r) /\ UNCHANGED <<phase, tries, posts>>
-  /\ UNCHANGED <<hasNonceURL, nextN, used, nrep, mu, nonce, budget, phases, lastR, cancelled, bad, late>>
+  /\ UNCHANGED <<hasNonceURL, nextN, used, nrep, mu, nonce, budget, phases, stopv, lastR, cancelled, bad, late>>
 
 Clear(o) ==
   /\ pc[o] = "clear" /\ mu = NoOp
@@ -197,9 +198,18 @@ Clear(o) ==
   /\ tries' = [tries EXCEPT ![o] = @ + 1]
   /\ pc' = [pc EXCEPT ![o] = "backoff"]
   /\ ev' = E("clear", o, "", 0, 0)
-  /\ UNCHANGED <<hasNonceURL, nextN, used, nrep, mu, nonce, phase, posts, budget, phases, lastR, res, cancelled, bad, late>>
+  /\ UNCHANGED <<hasNonceURL, nextN, used, nrep, mu, nonce, phase, posts, budget, phases, stopv, lastR, res, cancelled, bad, late>>
 
-\* how: "stop" (RetryBackoff <= 0), "wake" (slept), "cancel" (context cancelled while sleeping)
+(* The value RetryBackoff returns has a class: positive (n <= budget), or NON-POSITIVE -- stopv[o] in
+   {"zero", "neg"} -- once the budget is used up.  Client.RetryBackoff's documentation: "If the returned
+   value is negative or zero, no more retries are done and an error is returned": BOTH classes end the
+   retries with the CA's error of the final reply, and the requests sent are retries taken + 1.
+   The default back-off (RetryBackoff = nil) produces the same classes from the reply's Retry-After:
+   absent / positive seconds / zero seconds (+ jitter >= 1 ms) / date in the future -> positive;
+   negative seconds below the jitter / date in the past -> negative. *)
+DefaultBackoffClass(ra) == IF ra \in {"absent", "posSeconds", "zeroSeconds", "futureDate"} THEN "pos" ELSE "neg"
+ASSUME \A ra \in {"negSeconds", "pastDate"} : DefaultBackoffClass(ra) = "neg"
+\* how: "stop" (RetryBackoff <= 0: zero OR negative), "wake" (slept), "cancel" (context cancelled while sleeping)
 Backoff(o, how) ==
   /\ pc[o] = "backoff"
   /\ IF tries[o] > budget[o] THEN how = "stop" ELSE how \in {"wake", "cancel"}
@@ -209,10 +219,10 @@ Backoff(o, how) ==
      ELSE /\ pc' = [pc EXCEPT ![o] = "done"]
           /\ res' = [res EXCEPT ![o] = [c |-> "acmeerr", s |-> lastR[o].s]]
           /\ cancelled' = [cancelled EXCEPT ![o] = (how = "cancel")]
-  /\ UNCHANGED <<hasNonceURL, nextN, used, nrep, pool, mu, nonce, tries, phase, posts, budget, phases, lastR, bad, late>>
+  /\ UNCHANGED <<hasNonceURL, nextN, used, nrep, pool, mu, nonce, tries, phase, posts, budget, phases, stopv, lastR, bad, late>>
 
 Next == \E o \in Ops :
-          \/ \E b \in Budgets, p \in PhaseSet : Call(o, b, p)
+          \/ \E b \in Budgets, p \in PhaseSet, sv \in StopVals : Call(o, b, p, sv)
           \/ PopPool(o) \/ HeadStart(o) \/ HeadStart2(o) \/ Send(o) \/ AddNonce(o) \/ Clear(o)
           \/ \E k \in HeadKinds : HeadReply(o, k)
           \/ \E k \in PostKinds : PostReply(o, k)
